@@ -18,6 +18,8 @@ var round2Docs = map[string]map[string]string{
 	"C24": {"C24.R5": "pairing: popped stream-expiry item ⇔ index entry", "C24.R6": "pairing: state entry delete ⇒ deadline record delete"},
 	"C15": {"C15.R6": "error discipline: a child's validation error is returned before the next child"},
 	"C14": {"C14.R6": "K2: the medium's delta base does not depend on the publication's delta flag"},
+	"C19": {"C19.R4": "Lua pairing: version field and version-epoch field are read, written and deleted together", "C19.R5": "Lua pairing: a script that consults the idempotency result key also stores and expires it"},
+	"C18": {"C18.R4": "Lua: the history add scripts expire the data key they append to"},
 	"C21": {"C21.R6": "sibling agreement: a channel created without its ordering flag is upgraded by the publish path"},
 	"C41": {"C41.R4": "value flow: a survey response is addressed to the requesting node on every path"},
 	"C23": {"C23.R6": "K6c: ARGV the script's leave branch uses are supplied by the Remove call site"},
@@ -70,6 +72,10 @@ func hookRound2(c *Ctx, prop string) {
 		runBaseFollowsEveryPublication(c)
 	case "C16":
 		runPreparedDataComplete(c)
+	case "C19":
+		runLuaPairs(c)
+	case "C18":
+		runLuaHistoryTTL(c)
 	case "C21":
 		runOrderedUpgrade(c)
 	case "C41":
@@ -92,6 +98,116 @@ func hookRound2(c *Ctx, prop string) {
 		runResolverOnlyThroughValidate(c)
 	case "C02":
 		runPositionPair(c)
+	}
+}
+
+// luaArgNames lists the name and string tokens of a redis.call's arguments.
+func luaArgNames(ev luaEvent) (names map[string]bool, strs map[string]bool) {
+	names, strs = map[string]bool{}, map[string]bool{}
+	for _, t := range ev.Args {
+		switch t.Kind {
+		case "name":
+			names[t.Text] = true
+		case "string":
+			strs[t.Text] = true
+		}
+	}
+	return
+}
+
+// runLuaPairs: (C19.R4) in the Redis scripts the stored version and its epoch are one value: every
+// redis.call that names the version field ("v" on the stream meta hash, version_field on the map
+// state meta hash) names the epoch field ("ve" / version_epoch_field) in the same call — read with
+// hmget, written with hset, deleted with hdel together. (C19.R5) a script that answers from the
+// idempotency result key also stores the result there and gives it its TTL.
+func runLuaPairs(c *Ctx) {
+	scripts := c.W.LuaScripts()
+	n := 0
+	for _, name := range []string{"broker_history_add_stream.lua", "map_broker_add.lua", "map_broker_batch_remove.lua"} {
+		s := scripts[name]
+		if s == nil {
+			continue
+		}
+		for _, ev := range s.Events {
+			if ev.Kind != "call" || !(ev.Cmd == "hset" || ev.Cmd == "hmget" || ev.Cmd == "hdel" || ev.Cmd == "hget") {
+				continue
+			}
+			names, strs := luaArgNames(ev)
+			hasV := strs["v"] || names["version_field"]
+			hasVE := strs["ve"] || names["version_epoch_field"]
+			if !hasV && !hasVE {
+				continue
+			}
+			n++
+			c.CheckAt("C19.R4", fmt.Sprintf("%s:%d: %s names the version field and its epoch field together", name, ev.Line, ev.Cmd), luaPos(s, ev.Line), hasV && hasVE,
+				"the version is only comparable within its epoch: storing, reading or deleting one without the other lets a stale publish through (or suppresses a fresh one) after the epoch changes or the key is re-created")
+		}
+	}
+	c.CheckAt("C19.R4", "version/epoch field accesses found in the scripts", "internal/redis_lua", n >= 4, fmt.Sprint(n))
+	// R5
+	for _, name := range []string{"broker_history_add_stream.lua", "broker_history_add_list.lua", "broker_publish_idempotent.lua", "map_broker_add.lua"} {
+		s := scripts[name]
+		if s == nil {
+			continue
+		}
+		reads, writes, expires := 0, 0, 0
+		for _, ev := range s.Events {
+			if ev.Kind != "call" {
+				continue
+			}
+			names, _ := luaArgNames(ev)
+			if !names["result_key"] {
+				continue
+			}
+			switch ev.Cmd {
+			case "hmget", "hget", "hgetall":
+				reads++
+			case "hset", "hmset":
+				writes++
+			case "expire", "pexpire":
+				expires++
+			}
+		}
+		if reads == 0 {
+			continue
+		}
+		c.CheckAt("C19.R5", name+": the idempotency result is stored where it is consulted", "internal/redis_lua/"+name, writes >= 1,
+			"the script answers a repeated idempotency key from result_key but never writes it: every repeat is a fresh publish (added to history and delivered again)")
+		c.CheckAt("C19.R5", name+": the stored idempotency result gets its TTL", "internal/redis_lua/"+name, expires >= 1,
+			"a result without expiry suppresses the key forever: after the TTL a repeat must be a fresh publish")
+	}
+}
+
+// runLuaHistoryTTL (C18.R4): the memory broker drops a channel's history when its TTL elapses; the Redis
+// add scripts get the same effect from an unconditional expire on the key they append to.
+func runLuaHistoryTTL(c *Ctx) {
+	scripts := c.W.LuaScripts()
+	for name, key := range map[string]string{"broker_history_add_stream.lua": "stream_key", "broker_history_add_list.lua": "list_key"} {
+		s := scripts[name]
+		if s == nil {
+			continue
+		}
+		appends, expires := 0, 0
+		for _, ev := range s.Events {
+			if ev.Kind != "call" {
+				continue
+			}
+			names, _ := luaArgNames(ev)
+			if !names[key] {
+				continue
+			}
+			switch ev.Cmd {
+			case "xadd", "lpush", "rpush":
+				appends++
+			case "expire", "pexpire":
+				if len(ev.Conds) == 0 {
+					expires++
+				}
+			}
+		}
+		c.CheckAt("C18.R4", name+": appends to "+key, "internal/redis_lua/"+name, appends >= 1, "")
+		c.CheckAt("C18.R4", name+": "+key+" is given the history TTL on every publish", "internal/redis_lua/"+name, expires >= 1,
+			"without the expire the Redis history never ages out while the memory broker's does: history reads and recovery diverge after the TTL")
 	}
 }
 
